@@ -84,26 +84,27 @@ var (
 	}
 )
 
+func sideBoth(a, b func(c *rules.Ctx, fn *ssa.Function, in ssa.Instruction) (bool, string)) func(c *rules.Ctx, fn *ssa.Function, in ssa.Instruction) (bool, string) {
+	return func(c *rules.Ctx, fn *ssa.Function, in ssa.Instruction) (bool, string) {
+		if ok, why := a(c, fn, in); !ok {
+			return ok, why
+		}
+		return b(c, fn, in)
+	}
+}
+
 const showOnSourceReason = "ASSUMPTION (runtime quantity, not decided): the ranges rendered by ParseErrorsToString were produced by ANTLR for the same text, so 0 <= Start.Line <= End.Line < number of lines and tokens have non-empty text (End.Character >= Start.Character on one line)"
 
 var parseExceptions = map[string]rules.PanicException{
 	"panic:internal/parser.Range.ShowOnSource:slice":    {Reason: showOnSourceReason},
 	"panic:internal/parser.Range.ShowOnSource:index":    {Reason: showOnSourceReason},
 	"panic:internal/parser.Range.ShowOnSource$2:repeat": {Reason: showOnSourceReason},
-	"panic:internal/parser.parseVarLiteral:slice": {
-		Reason: "the token is a VARIABLE_NAME (or a conjured one, excluded by the index test): at least the '$' sigil", Side: sideMinLen("VARIABLE_NAME", "$a_0", 1)},
-	"panic:internal/parser.variableLiteralFromCtx:slice": {
-		Reason: "the context is a single VARIABLE_NAME token: at least the '$' sigil", Side: sideMinLen("VARIABLE_NAME", "$a_0", 1)},
-	"panic:internal/parser.parseValueExpr:slice": {
-		Reason: "the accountLiteral alternative is a single ACCOUNT token: at least the '@' sigil", Side: sideMinLen("ACCOUNT", "@a:_", 1)},
-	"panic:internal/parser.parseStringLiteralCtx:slice": {
-		Reason: "the stringLiteral alternative is a single STRING token: two quotes", Side: sideMinLen("STRING", "\"a\\", 2)},
-	"panic:internal/parser.unsafeParseBigInt:explicit": {
-		Reason: "called only on the two parts of a RATIO token split on '/': trimmed digit strings, on which base-ten big.Int.SetString is total", Side: sideRatioParts},
-	"panic:internal/parser.parseRatio:index": {
+	"shape:internal/parser:explicit:setstring10-failed": {
+		Reason: "in the parser package base-ten big.Int.SetString is only applied to the parts of a RATIO token split on '/' (trimmed digit strings) and to a PERCENTAGE token minus '%' and '.' (a digit string), on which it is total", Side: sideBoth(sideRatioParts, sidePercentDigits)},
+	"shape:internal/parser:explicit:setstring10-failed-in-callee": {
+		Reason: "the callee fails only when base-ten SetString fails; it is given a PERCENTAGE token, which minus '%' and '.' is a digit string", Side: sidePercentDigits},
+	"shape:internal/parser:index:split-const": {
 		Reason: "a RATIO token contains exactly one '/'", Side: sideRatioParts},
-	"panic:internal/parser.parsePercentageRatio:explicit": {
-		Reason: "ParsePercentageRatio fails only when base-ten SetString fails; a PERCENTAGE token minus '%' and '.' is a digit string", Side: sidePercentDigits},
 }
 
 func obPanicParse(c *rules.Ctx, id string) {
